@@ -69,6 +69,8 @@ func valueOf(v string, f uint64, rem uint64) uint64 {
 		return rem + 1
 	case "256":
 		return 256
+	case "65535":
+		return 65535
 	case "2^40":
 		return 1 << 40
 	}
@@ -169,6 +171,9 @@ func (v *p2variant) apply(m c19Mut) {
 		}
 		if m.Value == "1" {
 			v.recvExp[0] = 1 // collides with block 1 (different content under the same exponent)
+		}
+		if m.Value == "65535" {
+			v.recvExp[0] = 65535
 		}
 	case "recv.datalen":
 		v.recvLen = int(valueOf(m.Value, c19S, 0))
@@ -539,6 +544,37 @@ func runC19Case(dir string, cs c19Case, prot map[string][]byte, a1 *arch1) (trac
 		}
 		_ = mfiles
 		index = filepath.Join(dir, "set.par2")
+	} else if cs.Muts[0].Field == "set.256_entries" || cs.Muts[0].Field == "set.255_entries" {
+		// a genuine set with 255 / 256 entries (3 real files + tiny ones), written by the reference writer
+		n := 255
+		if cs.Muts[0].Field == "set.256_entries" {
+			n = 256
+		}
+		var specs []refpar1.FileSpec
+		for _, nm := range c19Names {
+			specs = append(specs, refpar1.FileSpec{Name: nm, Data: prot[nm], Saved: true})
+		}
+		for k := len(specs); k < n; k++ {
+			nm := fmt.Sprintf("t%03d", k)
+			d := []byte{byte(k), byte(k >> 8)}
+			specs = append(specs, refpar1.FileSpec{Name: nm, Data: d, Saved: true})
+			ioutil.WriteFile(filepath.Join(dir, nm), d, 0644)
+			present += 2
+		}
+		idx := refpar1.BuildVolume(specs, 0, nil)
+		ioutil.WriteFile(filepath.Join(dir, "set.par"), idx, 0644)
+		present += len(idx)
+		nblocks = 0
+		if n == 255 {
+			vb := refpar1.BuildVolume(specs, 1, refpar1.Parity(specs, 1))
+			ioutil.WriteFile(filepath.Join(dir, "set.p01"), vb, 0644)
+			present += len(vb)
+			nblocks = 1
+		}
+		for _, e := range refpar1.Tokenize(idx).Entries {
+			declared[e.Name] = tracelog.M{"md5": hx(e.Hash), "len": fmt.Sprint(e.FileBytes)}
+		}
+		index = filepath.Join(dir, "set.par")
 	} else {
 		files := map[string][]byte{"index": patchPar1(a1.IndexB, cs.Muts, false, 0), "vol1": patchPar1(a1.VolB[1], cs.Muts, true, 1), "vol2": patchPar1(a1.VolB[2], cs.Muts, true, 2)}
 		real := map[string]string{"index": "set.par", "vol1": "set.p01", "vol2": "set.p02"}
